@@ -177,7 +177,7 @@ META = {
         "design_ref": "DESIGN.md section 4, C14",
         "note": "Trusted: Coq kernel, extraction, trace abstraction, scripted peer. Fixed: outcomes pending after a session stop (0b39716) and after a closing detach (bc4ca04), send() "
                 "after a peer detach (6e7bff8). Known findings: c14-hang-engine-stuck / c14-engine-alive (small pipe, non-reading peer), c14-hang-send-outcome (non-closing detach), "
-                "c14-peer-error-lost, c14-wrong-scope, c14-data-op-ok-after-failure, c14-peer-error-lost-after-pipe-drop.",
+                "c14-peer-error-lost-link, c14-wrong-scope-link, c14-data-op-ok-after-failure-link, c14-peer-error-lost-after-pipe-drop-link (all after a peer detach).",
         "technique": "Coq proof (inductive invariant over event lists) + extracted-model-vs-engine correspondence on abstracted fault-injection traces + direct oracle over every cut point",
     },
     "C16": {
